@@ -42,7 +42,7 @@ def gen_case(rng, tier, idx):
             hist.append(rng.choice(hist))
     return {"kind": "sim", "triggers": trig, "add_history": hist,
             "mon_trigger": rng.choice(["level", "rise", "fall"]),
-            "cycles": 250 if tier == "quick" else 800}
+            "cycles": (250 if tier == "quick" else 800) * (8 if rng.random() < 0.04 else 1)}
 
 
 def run_case(case):
